@@ -262,6 +262,9 @@ fn finish(id: &str, cfg: &Cfg, acc: &Acc, meta: &Meta, wall: f64) -> i32 {
     for (k, v) in &meta.extra {
         cov.put(k, v.clone());
     }
+    for (k, v) in &acc.notes {
+        cov.put(k, v.clone());
+    }
     let ev = J::obj()
         .set("property_id", id)
         .set("tier", cfg.tier.name())
